@@ -8,7 +8,6 @@ package verifsim
 // Update returns. Only what SQLite made durable survives.
 
 import (
-	"sync"
 	"bufio"
 	"bytes"
 	"context"
@@ -23,6 +22,7 @@ import (
 	"os/exec"
 	"strconv"
 	"strings"
+	"sync"
 	"syscall"
 	"time"
 
